@@ -16,17 +16,33 @@
                     widened on the referenced definition).
      C06_full_top : whole documents: the first module that is not a `celldefine module, if nobody instantiates it,
                     is the top (for a root anywhere in the file: C06_top_clause_holds, on the module list).
-     NOT proved - C06_full stays a Definition: the composition over a whole document, i.e. (i) that [visible] (every
-     connection made so far shows in the value), a hypothesis of C06_full_instance_nets that the theorem re-establishes,
-     holds in every reachable state; (ii) the same frame / stability argument for wire declarations, assigns and
-     instance creation, and for the definitions other than the one being read; (iii) the induction over the modules
-     of a document (forward references, never-declared modules) and the positional maps deferred to the end of the file.
+     C06_visible_reachable    : [visible] - every connection made shows in the value - is an invariant of EVERY state
+                    the reader reaches (all header entries, body items, module boundaries, the end of the file).
+     C06_frame_body_items / C06_frame_end_of_file : frames for wire declarations, assigns, instance creation, port maps
+                    of any definition, defparams, add_blackbox_definitions, the deferred positional maps - in EVERY
+                    definition held, what is on a net bit stays on it (everything except a re-basing declaration).
+     C06_full_instance_persists / C06_full_last_module_instance / C06_full_module_instance / C06_full_connections_named :
+                    the induction over the modules of a document and the items of a body, for the connection clause: for
+                    an instance with a named port map in ANY module of a document, the value elab returns shows bit k
+                    of every connection expression on bit k of the port; input class = the boolean predicate
+                    inst_in_class (selects inside the ranges known at that point, ports of the instantiated definition
+                    based at 0, no port declaration later in the body, the instantiated module not declared later).
+     C06_full_assigns_document : the same for the assign clause (pin k of the assignment carries bit k of both sides).
+     C06_full_ports_document   : what header and port declarations joined (C06_full_ports) is in the final value.
+     C06_full_instances_document : every instantiation is an instance of that name and module in the value.
+     NOT proved - C06_full stays a Definition: (i) the connection clause when the instantiated module is declared LATER
+     in the file (forward reference) or a port declaration follows the instance: a re-basing declaration
+     ("input [7:4] a" after "module m(a)") legitimately moves labels, so this needs the statement in positions from the
+     low end, or "declarations based at 0" as a reachable-state invariant; (ii) the composition of the deferred
+     positional maps over the positions of one instance; (iii) the remaining clauses of denote at document level
+     (the list of modules, port direction / width / base, cables, instance parameters / attributes are proved per
+     construct only) and exactness (that the nets, assigns and instances hold nothing else).
    Character-level tokenisation and the recursive descent from tokens to the document value are not modelled. *)
 From Coq Require Import String.
 From Coq Require Import List ZArith Bool Permutation Lia.
 From SV Require Import Base.Base Fmt.VBits Fmt.VExpr Fmt.VDoc Fmt.VTop Fmt.VElab Fmt.VSpec Fmt.VSem
   Proofs.VerilogLists Proofs.VerilogSlice Proofs.VerilogGrow Proofs.VerilogPort Proofs.VerilogAssign Proofs.VerilogTop
-  Proofs.VElabBase Proofs.VElabInv Proofs.VElabWf Proofs.VElabExpr Proofs.VElabConn Proofs.VElabAssign Proofs.VElabPorts Proofs.VElabNets Proofs.VElabTop Proofs.VElabStable.
+  Proofs.VElabBase Proofs.VElabInv Proofs.VElabWf Proofs.VElabExpr Proofs.VElabConn Proofs.VElabAssign Proofs.VElabPorts Proofs.VElabNets Proofs.VElabTop Proofs.VElabStable Proofs.VElabVis Proofs.VElabFrame Proofs.VElabFrameX Proofs.VElabDoc Proofs.VElabRun Proofs.VElabRunX Proofs.VElabRunA Proofs.VElabRunP Proofs.VElabRunI.
 Import ListNotations.
 Local Close Scope string_scope.
 Open Scope Z_scope.
@@ -321,6 +337,53 @@ Proof.
     + split; [vm_compute; reflexivity|]. eexists. split; vm_compute; reflexivity.
 Qed.
 
+(* [visible] is a reachable-state invariant: in the state the reader arrives at for ANY document that it accepts (no
+   typing hypothesis), every connection of every definition shows in the netlist value - its wire is a labelled net
+   bit, its pin is a bit of a port of the module / of the definition the instance references, or a pin of an assign.
+   (Proofs/VElabVis.v: the structural invariant VInv - every connection joins an existing wire to an existing pin,
+   every deferred positional map names an existing instance of an existing definition - is preserved by every header
+   entry, every item of a module body, the module boundaries, add_blackbox_definitions and the deferred maps.) *)
+Theorem C06_visible_reachable : forall (doc : vdoc) (s : estate) (k : nat), run doc = Ok s -> visible s (get_def k s).
+Proof. exact run_visible. Qed.
+Print Assumptions C06_visible_reachable.
+
+(* hence the hypothesis [visible] of C06_full_instance_nets is met by the final state of every run *)
+Example C06_visible_reachable_witness : visible ex_state (get_def 0 ex_state) /\ ed_conn (get_def 0 ex_state) <> [].
+Proof.
+  split; [|vm_compute; discriminate].
+  apply (run_visible ex_doc2). unfold ex_state. destruct (run ex_doc2) as [s|e] eqn:E; [reflexivity|]. vm_compute in E. discriminate.
+Qed.
+
+(* frames for the constructs that had none: every item of a module body except a port declaration - wire declarations,
+   assigns, instances with named or positional maps (of ANY definition, the module itself or one referenced elsewhere
+   included), defparams - keeps, in EVERY definition held, every endpoint on the net bit it was on (no typing
+   hypothesis: only a "defining" declaration re-bases a bundle; everything else extends bundles and appends objects) *)
+Theorem C06_frame_body_items : forall cur items s s' k r e, Inv s -> Forall not_port_decl items ->
+  fold_res (body_item cur) items s = Ok s' ->
+  In e (net_of r (abs_def s (get_def k s))) -> In e (net_of r (abs_def s' (get_def k s'))).
+Proof. exact body_nets_persist. Qed.
+Print Assumptions C06_frame_body_items.
+
+(* ... and so do add_blackbox_definitions and the positional maps deferred to the end of the file *)
+Theorem C06_frame_end_of_file : forall s1 s k r e, Inv s1 ->
+  fold_res pending_one (st_pending (close_blackboxes s1)) (close_blackboxes s1) = Ok s ->
+  In e (net_of r (abs_def s1 (get_def k s1))) -> In e (net_of r (abs_def s (get_def k s))).
+Proof. exact end_of_file_nets_persist. Qed.
+Print Assumptions C06_frame_end_of_file.
+
+(* the connection clause composed: an instance with a named port map, read in a state that satisfies the invariants
+   every reachable state satisfies (Inv: run_inv; VInv: run_vinv), puts bit k of every connection expression on bit k
+   of the port, and the value still shows it after any label-stable continuation (LS: C06_frame_* above) *)
+Theorem C06_full_instance_persists : forall cur m i params attrs l s s1 s2, Inv s -> VInv s -> (cur < length (st_defs s))%nat ->
+  ed_name (get_def cur s) <> m ->
+  Forall (conn_typed (crange (get_def cur s))) l -> Forall (fun pc => has_glob (fst pc) = false) l ->
+  (forall k, find_def m s = Some k -> all_lo0 (get_def k s)) ->
+  inst_item cur m i params attrs (CNamed l) s = Ok s1 -> LS s1 s2 ->
+  forall pc e r, In pc l -> In (e, r) (conn_meaning i (crange (get_def cur s)) pc) ->
+  In e (net_of r (abs_def s2 (get_def cur s2))).
+Proof. exact inst_named_persists. Qed.
+Print Assumptions C06_full_instance_persists.
+
 (* one position of a positional port map (processed when the whole file has been read): the same, on the port at that
    position of the referenced definition, or on a new unnamed port of the width of the expression when the
    definition has no port there (never-declared module) *)
@@ -466,6 +529,257 @@ Proof.
   - destruct (elab ex_doc) as [n|e] eqn:E; [eexists; reflexivity|]. vm_compute in E. discriminate.
 Qed.
 
+(* whole documents, by induction over the modules and over the items of a body: in the LAST module of a document (a flat
+   netlist is one module; the cells it uses need not be declared), an instance with a named port map followed by items
+   that are not port declarations. The reader reaches the instance in the state s - after the modules before, the
+   header and the items before - and under the typing hypotheses of the input class ON s (selects inside the declared
+   ranges; the ports the referenced definition has so far are based at 0) the VALUE elab returns shows, in the
+   definition of that module, bit k of every connection expression joined to bit k of the port. *)
+Theorem C06_full_last_module_instance : forall pre m before m' i params attrs l after n,
+  elab (pre ++ [m]) = Ok n -> vm_cell m = false ->
+  vm_body m = before ++ IInst m' i params attrs (CNamed l) :: after -> Forall not_port_decl after ->
+  exists s0 s5 cur s d,
+    fold_res module_decl pre st_init = Ok s0 /\ module_open m s0 = Ok (s5, cur) /\ fold_res (body_item cur) before s5 = Ok s /\
+    nth_error (nv_defs n) cur = Some d /\ nd_name d = vm_name m /\
+    (vm_name m <> m' ->
+     Forall (conn_typed (crange (get_def cur s))) l -> Forall (fun pc => has_glob (fst pc) = false) l ->
+     (forall k, find_def m' s = Some k -> all_lo0 (get_def k s)) ->
+     forall pc e r, In pc l -> In (e, r) (conn_meaning i (crange (get_def cur s)) pc) -> In e (net_of r d)).
+Proof. exact last_module_instance_value. Qed.
+Print Assumptions C06_full_last_module_instance.
+
+(* the first module of ex_doc alone (sub and GND are never declared): u1's map is followed by a positional map and an
+   assign; the theorem puts bit 1 of {b, w[2]} = b on bit 1 of q, and bit 1 of a[1:0] on bit 1 of p *)
+Example C06_full_last_module_witness :
+  match elab (firstn 1 ex_doc) with
+  | Ok n => exists d, nth_error (nv_defs n) 0 = Some d /\ nd_name d = S "top" /\
+                      In (EInst (S "u1") (LName (S "q")) 1) (net_of (S "b", 0) d) /\
+                      In (EInst (S "u1") (LName (S "p")) 1) (net_of (S "a", 1) d)
+  | Err _ => False
+  end.
+Proof.
+  destruct (elab (firstn 1 ex_doc)) as [n|er] eqn:E; [|vm_compute in E; discriminate].
+  destruct (C06_full_last_module_instance [] (nth 0 ex_doc {| vm_name := []; vm_cell := true; vm_params := []; vm_attrs := []; vm_header := []; vm_body := [] |})
+              (firstn 4 (vm_body (nth 0 ex_doc {| vm_name := []; vm_cell := true; vm_params := []; vm_attrs := []; vm_header := []; vm_body := [] |})))
+              (S "sub") (S "u1") [] []
+              [(S "p", Some (DAtom (DPart (S "a") 1 0))); (S "q", Some (DCat [DId (S "b"); DBit (S "w") 2])); (S "r", None)]
+              (skipn 5 (vm_body (nth 0 ex_doc {| vm_name := []; vm_cell := true; vm_params := []; vm_attrs := []; vm_header := []; vm_body := [] |})))
+              n E eq_refl eq_refl) as (s0 & s5 & cur & s & d & E0 & E5 & Es & Hd & Nd & K).
+  { repeat constructor. }
+  cbn in E0. inversion E0; subst s0. clear E0.
+  vm_compute in E5. inversion E5; subst s5 cur. clear E5.
+  vm_compute in Es. inversion Es; subst s. clear Es.
+  exists d. split; [exact Hd|]. split; [exact Nd|].
+  match type of K with ?A -> _ => assert (H1 : A) by (vm_compute; discriminate) end. specialize (K H1).
+  match type of K with ?A -> _ => assert (H2 : A) end.
+  { constructor; [cbn; split; [reflexivity|]; cbn; exists 0, 4%nat; split; [vm_compute; reflexivity|lia]|].
+    constructor; [cbn; split; [discriminate|]; constructor; [split; [reflexivity|exact Logic.I]|];
+                  constructor; [split; [reflexivity|]; cbn; exists 0, 4%nat; split; [vm_compute; reflexivity|lia]|constructor]|].
+    constructor; [exact Logic.I|constructor]. }
+  specialize (K H2).
+  match type of K with ?A -> _ => assert (H3 : A) by (repeat constructor) end. specialize (K H3).
+  match type of K with ?A -> _ => assert (H4 : A) by (intros k Hk; vm_compute in Hk; discriminate) end. specialize (K H4).
+  rename K into T.
+  split.
+  - apply (T (S "q", Some (DCat [DId (S "b"); DBit (S "w") 2]))); [right; left; reflexivity|]. vm_compute. left. reflexivity.
+  - apply (T (S "p", Some (DAtom (DPart (S "a") 1 0)))); [left; reflexivity|]. vm_compute. left. reflexivity.
+Qed.
+
+(* ... and in ANY module m of a document, when the modules after m neither re-declare m nor declare the instantiated
+   module (it is declared earlier in the file or never - no forward reference): while a later module is read its own
+   definition is re-based freely, every other definition keeps its labels, instances and references
+   (Proofs/VElabFrameX.v module_decl_LSX), so the connection keeps its meaning down to the value elab returns. *)
+Theorem C06_full_module_instance : forall pre m post before m' i params attrs l after n,
+  elab (pre ++ m :: post) = Ok n -> vm_cell m = false ->
+  vm_body m = before ++ IInst m' i params attrs (CNamed l) :: after -> Forall not_port_decl after ->
+  Forall (fun m2 => vm_name m2 <> vm_name m /\ vm_name m2 <> m') post ->
+  exists s0 s5 cur s,
+    fold_res module_decl pre st_init = Ok s0 /\ module_open m s0 = Ok (s5, cur) /\ fold_res (body_item cur) before s5 = Ok s /\
+    Inv s /\ VInv s /\ ed_name (get_def cur s) = vm_name m /\
+    (vm_name m <> m' ->
+     Forall (conn_typed (crange (get_def cur s))) l -> Forall (fun pc => has_glob (fst pc) = false) l ->
+     (forall k, find_def m' s = Some k -> all_lo0 (get_def k s)) ->
+     forall pc e r, In pc l -> In (e, r) (conn_meaning i (crange (get_def cur s)) pc) ->
+     exists d, nth_error (nv_defs n) cur = Some d /\ In e (net_of r d)).
+Proof. exact module_instance_value. Qed.
+Print Assumptions C06_full_module_instance.
+
+(* sub declared first, then top (ex_doc in the other order), then a module with a re-basing declaration "input [7:4] z" *)
+Definition ex_doc4 : vdoc :=
+  match ex_doc with
+  | top :: sub :: _ =>
+      [sub; top; {| vm_name := S "aux"; vm_cell := false; vm_params := []; vm_attrs := [];
+                    vm_header := [HPort None None (S "z")]; vm_body := [IPortDecl DIn None (Some (7, 4)) [S "z"] []] |}]
+  | _ => []
+  end.
+
+Example C06_full_module_instance_witness :
+  match elab ex_doc4 with
+  | Ok n => exists d, nth_error (nv_defs n) 1 = Some d /\ In (EInst (S "u1") (LName (S "q")) 1) (net_of (S "b", 0) d)
+  | Err _ => False
+  end.
+Proof.
+  destruct (elab ex_doc4) as [n|er] eqn:E; [|vm_compute in E; discriminate].
+  destruct (C06_full_module_instance (firstn 1 ex_doc4) (nth 1 ex_doc4 {| vm_name := []; vm_cell := true; vm_params := []; vm_attrs := []; vm_header := []; vm_body := [] |})
+              (skipn 2 ex_doc4)
+              (firstn 4 (vm_body (nth 1 ex_doc4 {| vm_name := []; vm_cell := true; vm_params := []; vm_attrs := []; vm_header := []; vm_body := [] |})))
+              (S "sub") (S "u1") [] []
+              [(S "p", Some (DAtom (DPart (S "a") 1 0))); (S "q", Some (DCat [DId (S "b"); DBit (S "w") 2])); (S "r", None)]
+              (skipn 5 (vm_body (nth 1 ex_doc4 {| vm_name := []; vm_cell := true; vm_params := []; vm_attrs := []; vm_header := []; vm_body := [] |})))
+              n E eq_refl eq_refl) as (s0 & s5 & cur & s & E0 & E5 & Es & _ & _ & _ & K).
+  { repeat constructor. }
+  { constructor; [|constructor]. split; vm_compute; discriminate. }
+  vm_compute in E0. inversion E0; subst s0. clear E0.
+  vm_compute in E5. inversion E5; subst s5 cur. clear E5.
+  vm_compute in Es. inversion Es; subst s. clear Es.
+  match type of K with ?A -> _ => assert (H1 : A) by (vm_compute; discriminate) end. specialize (K H1).
+  match type of K with ?A -> _ => assert (H2 : A) end.
+  { constructor; [cbn; split; [reflexivity|]; cbn; exists 0, 4%nat; split; [vm_compute; reflexivity|lia]|].
+    constructor; [cbn; split; [discriminate|]; constructor; [split; [reflexivity|exact Logic.I]|];
+                  constructor; [split; [reflexivity|]; cbn; exists 0, 4%nat; split; [vm_compute; reflexivity|lia]|constructor]|].
+    constructor; [exact Logic.I|constructor]. }
+  specialize (K H2).
+  match type of K with ?A -> _ => assert (H3 : A) by (repeat constructor) end. specialize (K H3).
+  match type of K with ?A -> _ => assert (H4 : A) end.
+  { intros k Hk. vm_compute in Hk. inversion Hk; subst k. intros p Hp. vm_compute in Hp.
+    repeat (destruct Hp as [<-|Hp]; [reflexivity|]). destruct Hp. }
+  specialize (K H4).
+  apply (K (S "q", Some (DCat [DId (S "b"); DBit (S "w") 2]))); [right; left; reflexivity|]. vm_compute. left. reflexivity.
+Qed.
+
+(* the same with the input class as ONE boolean predicate on the document (inst_in_class, Proofs/VElabRunX.v: the
+   module is not a cell and does not instantiate itself here, selects inside the ranges the nets have at that point -
+   env_before, computed by the reader model on the text before the instance -, no glob names, the ports the
+   instantiated definition has so far based at 0, no port declaration later in the body, no later module re-declaring
+   m or declaring the instantiated module), and no intermediate state in the statement: the connection clause of
+   C06_full for named port maps. *)
+Theorem C06_full_connections_named : forall pre m post before m' i params attrs l after n,
+  elab (pre ++ m :: post) = Ok n ->
+  vm_body m = before ++ IInst m' i params attrs (CNamed l) :: after ->
+  inst_in_class pre m post before m' l after = true ->
+  forall pc e r, In pc l -> In (e, r) (conn_meaning i (env_before pre m before) pc) ->
+  exists d, nth_error (nv_defs n) (pos_before pre m before) = Some d /\ In e (net_of r d).
+Proof. exact module_instance_class. Qed.
+Print Assumptions C06_full_connections_named.
+
+Example C06_full_connections_named_witness :
+  let top := nth 1 ex_doc4 {| vm_name := []; vm_cell := true; vm_params := []; vm_attrs := []; vm_header := []; vm_body := [] |} in
+  let l := [(S "p", Some (DAtom (DPart (S "a") 1 0))); (S "q", Some (DCat [DId (S "b"); DBit (S "w") 2])); (S "r", None)] in
+  vm_body top = firstn 4 (vm_body top) ++ IInst (S "sub") (S "u1") [] [] (CNamed l) :: skipn 5 (vm_body top) /\
+  inst_in_class (firstn 1 ex_doc4) top (skipn 2 ex_doc4) (firstn 4 (vm_body top)) (S "sub") l (skipn 5 (vm_body top)) = true /\
+  pos_before (firstn 1 ex_doc4) top (firstn 4 (vm_body top)) = 1%nat /\
+  conn_meaning (S "u1") (env_before (firstn 1 ex_doc4) top (firstn 4 (vm_body top))) (S "q", Some (DCat [DId (S "b"); DBit (S "w") 2])) =
+    [(EInst (S "u1") (LName (S "q")) 1, (S "b", 0)); (EInst (S "u1") (LName (S "q")) 0, (S "w", 2))] /\
+  (* a select outside the declared range is outside the class *)
+  inst_in_class (firstn 1 ex_doc4) top (skipn 2 ex_doc4) (firstn 4 (vm_body top)) (S "sub") [(S "p", Some (DAtom (DBit (S "a") 9)))] [] = false.
+Proof. vm_compute. repeat split. Qed.
+
+(* the assign clause on whole documents: an assign in any module m (no port declaration after it in the body, no later
+   module re-declaring m), read in the state s with both sides typed: the value elab returns holds, in the definition
+   of m, one assignment whose pin k carries bit k - from the low end - of the left and of the right side, as wide as
+   the narrower side *)
+Theorem C06_full_assigns_document : forall pre m post before lhs rhs after n,
+  elab (pre ++ m :: post) = Ok n -> vm_cell m = false ->
+  vm_body m = before ++ IAssign lhs rhs :: after -> Forall not_port_decl after ->
+  Forall (fun m2 => vm_name m2 <> vm_name m) post ->
+  exists s0 s5 cur s,
+    fold_res module_decl pre st_init = Ok s0 /\ module_open m s0 = Ok (s5, cur) /\ fold_res (body_item cur) before s5 = Ok s /\
+    Inv s /\ VInv s /\
+    (datom_typed (crange (get_def cur s)) lhs -> datom_typed (crange (get_def cur s)) rhs ->
+     let lb := datom_bits (crange (get_def cur s)) lhs in let rb := datom_bits (crange (get_def cur s)) rhs in
+     exists d, nth_error (nv_defs n) cur = Some d /\
+       In (map (fun k => (nth_error lb k, nth_error rb k)) (seq 0 (Nat.min (length lb) (length rb)))) (nd_assigns d)).
+Proof. exact module_assign_value. Qed.
+Print Assumptions C06_full_assigns_document.
+
+(* "assign y[0] = n1;" at the end of top in ex_doc4 (the module aux follows) *)
+Example C06_full_assigns_document_witness :
+  match elab ex_doc4 with
+  | Ok n => exists d, nth_error (nv_defs n) 1 = Some d /\ In [(Some (S "y", 0), Some (S "n1", 0))] (nd_assigns d)
+  | Err _ => False
+  end.
+Proof.
+  destruct (elab ex_doc4) as [n|er] eqn:E; [|vm_compute in E; discriminate].
+  destruct (C06_full_assigns_document (firstn 1 ex_doc4) (nth 1 ex_doc4 {| vm_name := []; vm_cell := true; vm_params := []; vm_attrs := []; vm_header := []; vm_body := [] |})
+              (skipn 2 ex_doc4)
+              (firstn 6 (vm_body (nth 1 ex_doc4 {| vm_name := []; vm_cell := true; vm_params := []; vm_attrs := []; vm_header := []; vm_body := [] |})))
+              (DBit (S "y") 0) (DId (S "n1")) [] n E eq_refl eq_refl) as (s0 & s5 & cur & s & E0 & E5 & Es & _ & _ & K).
+  { constructor. }
+  { constructor; [|constructor]. vm_compute. discriminate. }
+  vm_compute in E0. inversion E0; subst s0. clear E0.
+  vm_compute in E5. inversion E5; subst s5 cur. clear E5.
+  vm_compute in Es. inversion Es; subst s. clear Es.
+  match type of K with ?A -> _ => assert (H1 : A) end.
+  { split; [reflexivity|]. cbn. exists 0, 2%nat. split; [vm_compute; reflexivity|lia]. }
+  specialize (K H1).
+  match type of K with ?A -> _ => assert (H2 : A) by (split; [reflexivity|exact Logic.I]) end. specialize (K H2).
+  cbv zeta in K. destruct K as (d & Hd & Hin). exists d. split; [exact Hd|]. vm_compute in Hin. exact Hin.
+Qed.
+
+(* the ports clause on whole documents: what the header and the port declarations of a module have joined when the last
+   port declaration has been read (state s; for a plain header C06_full_ports says what: port bit k on bit k of the
+   cable of the same name) is in the value elab returns - no typing hypothesis *)
+Theorem C06_full_ports_document : forall pre m post before after sf,
+  run (pre ++ m :: post) = Ok sf -> vm_cell m = false ->
+  vm_body m = before ++ after -> Forall not_port_decl after ->
+  Forall (fun m2 => vm_name m2 <> vm_name m) post ->
+  exists s0 s5 cur s,
+    fold_res module_decl pre st_init = Ok s0 /\ module_open m s0 = Ok (s5, cur) /\ fold_res (body_item cur) before s5 = Ok s /\
+    Inv s /\ VInv s /\ ed_name (get_def cur s) = vm_name m /\
+    forall lb b r, In (EPort lb b) (net_of r (abs_def s (get_def cur s))) ->
+                   In (EPort lb b) (net_of r (abs_def sf (get_def cur sf))).
+Proof. exact module_port_nets. Qed.
+Print Assumptions C06_full_ports_document.
+
+Example C06_full_ports_document_witness :
+  match run ex_doc4 with
+  | Ok sf => In (EPort (LName (S "a")) 3) (net_of (S "a", 3) (abs_def sf (get_def 1 sf)))
+  | Err _ => False
+  end.
+Proof.
+  destruct (run ex_doc4) as [sf|er] eqn:E; [|vm_compute in E; discriminate].
+  destruct (C06_full_ports_document (firstn 1 ex_doc4) (nth 1 ex_doc4 {| vm_name := []; vm_cell := true; vm_params := []; vm_attrs := []; vm_header := []; vm_body := [] |})
+              (skipn 2 ex_doc4)
+              (firstn 3 (vm_body (nth 1 ex_doc4 {| vm_name := []; vm_cell := true; vm_params := []; vm_attrs := []; vm_header := []; vm_body := [] |})))
+              (skipn 3 (vm_body (nth 1 ex_doc4 {| vm_name := []; vm_cell := true; vm_params := []; vm_attrs := []; vm_header := []; vm_body := [] |})))
+              sf E eq_refl eq_refl) as (s0 & s5 & cur & s & E0 & E5 & Es & _ & _ & _ & K).
+  { repeat constructor. }
+  { constructor; [|constructor]. vm_compute. discriminate. }
+  vm_compute in E0. inversion E0; subst s0. clear E0.
+  vm_compute in E5. inversion E5; subst s5 cur. clear E5.
+  vm_compute in Es. inversion Es; subst s. clear Es.
+  apply K. vm_compute. left. reflexivity.
+Qed.
+
+(* the instances clause on whole documents (no typing hypothesis; named or positional map): every instantiation
+   "m' i (...)" in a module m - no port declaration after it in the body, no later module re-declaring m - is an
+   instance named i of module m' in a definition of the value *)
+Theorem C06_full_instances_document : forall pre m post before m' i params attrs conns after n,
+  elab (pre ++ m :: post) = Ok n -> vm_cell m = false ->
+  vm_body m = before ++ IInst m' i params attrs conns :: after -> Forall not_port_decl after ->
+  Forall (fun m2 => vm_name m2 <> vm_name m) post ->
+  exists cur d, nth_error (nv_defs n) cur = Some d /\ In (i, m') (map (fun ni => (ni_name ni, ni_ref ni)) (nd_insts d)).
+Proof. exact module_has_instance. Qed.
+Print Assumptions C06_full_instances_document.
+
+(* the positional instance "GND g(w[0], 1'b0)" of top in ex_doc4 *)
+Example C06_full_instances_document_witness :
+  match elab ex_doc4 with
+  | Ok n => exists cur d, nth_error (nv_defs n) cur = Some d /\ In (S "g", S "GND") (map (fun ni => (ni_name ni, ni_ref ni)) (nd_insts d))
+  | Err _ => False
+  end.
+Proof.
+  destruct (elab ex_doc4) as [n|er] eqn:E; [|vm_compute in E; discriminate].
+  apply (C06_full_instances_document (firstn 1 ex_doc4) (nth 1 ex_doc4 {| vm_name := []; vm_cell := true; vm_params := []; vm_attrs := []; vm_header := []; vm_body := [] |})
+           (skipn 2 ex_doc4)
+           (firstn 5 (vm_body (nth 1 ex_doc4 {| vm_name := []; vm_cell := true; vm_params := []; vm_attrs := []; vm_header := []; vm_body := [] |})))
+           (S "GND") (S "g") [] [] (CPos [Some (DAtom (DBit (S "w") 0)); Some (DAtom (DConst false))])
+           (skipn 6 (vm_body (nth 1 ex_doc4 {| vm_name := []; vm_cell := true; vm_params := []; vm_attrs := []; vm_header := []; vm_body := [] |})))
+           n E eq_refl eq_refl).
+  - repeat constructor.
+  - constructor; [|constructor]. vm_compute. discriminate.
+Qed.
+
 (* ANSI headers: a direction, and the range given with it or after it, stays in force for the names that follow
    until the next direction keyword (former finding V06-ansi-inherit-dir) *)
 Theorem C06_ansi_header_inherits : forall dr rg n rg' n' rest,
@@ -498,6 +812,8 @@ Example C06_ansi_header_witness :
 Proof. vm_compute. split; reflexivity. Qed.
 
 (* The statement at full strength: denote = the meaning of a document (the Coq counterpart of
-   harness/verilog_gen.expected), well_typed = the property's input class. *)
+   harness/verilog_gen.expected), well_typed = the property's input class. Proved of it: the connection clause for
+   named port maps (C06_full_connections_named, input class inst_in_class) and the assign clause
+   (C06_full_assigns_document) on the value elab returns, C06_wf for all documents, the top clause (C06_full_top). *)
 Definition C06_full (well_typed : vdoc -> Prop) (denote : vdoc -> nv -> Prop) : Prop :=
   forall d n, well_typed d -> elab d = Ok n -> exists m, denote d m /\ same_netlist m n.
